@@ -23,7 +23,7 @@ func fieldRoot(v ssa.Value) (ssa.Value, string) {
 	for {
 		fa, ok := v.(*ssa.FieldAddr)
 		if !ok {
-			return v, path
+			return unspill(v), path // a parameter a function literal captures lives in a cell
 		}
 		st := fa.X.Type().Underlying().(*types.Pointer).Elem().Underlying().(*types.Struct)
 		path = "." + st.Field(fa.Field).Name() + path
@@ -557,22 +557,39 @@ func c02(p *core.Program, r *core.Report) {
 		if fn == nil {
 			continue
 		}
-		got := map[int]int{}
-		for _, b := range fn.Blocks {
-			for _, in := range b.Instrs {
-				st, ok := in.(*ssa.Store)
-				if !ok {
-					continue
-				}
-				for i := 0; i < 2; i++ {
-					if st.Addr == ssa.Value(fn.Params[i]) {
-						if ld, ok := st.Val.(*ssa.UnOp); ok && ld.Op == token.MUL && ld.X == ssa.Value(fn.Params[1-i]) {
-							got[i]++
+		// swapStores: the function stores into *a the old *b and into *b the old *a (whole values)
+		var swapStores func(f *ssa.Function, a, b ssa.Value, depth int) map[int]int
+		swapStores = func(f *ssa.Function, a, b ssa.Value, depth int) map[int]int {
+			got := map[int]int{}
+			ps := [2]ssa.Value{a, b}
+			for _, blk := range f.Blocks {
+				for _, in := range blk.Instrs {
+					switch x := in.(type) {
+					case *ssa.Store:
+						for i := 0; i < 2; i++ {
+							if x.Addr == ps[i] {
+								if ld, ok := x.Val.(*ssa.UnOp); ok && ld.Op == token.MUL && ld.X == ps[1-i] {
+									got[i]++
+								}
+							}
+						}
+					case *ssa.Call:
+						// a helper of the package that is handed the two pointers and exchanges what they point to
+						callee := x.Call.StaticCallee()
+						if callee == nil || depth > 0 || callee.Blocks == nil || len(x.Call.Args) != 2 || len(callee.Params) != 2 {
+							continue
+						}
+						if (x.Call.Args[0] == a && x.Call.Args[1] == b) || (x.Call.Args[0] == b && x.Call.Args[1] == a) {
+							sub := swapStores(callee, callee.Params[0], callee.Params[1], depth+1)
+							got[0] += sub[0]
+							got[1] += sub[1]
 						}
 					}
 				}
 			}
+			return got
 		}
+		got := swapStores(fn, fn.Params[0], fn.Params[1], 0)
 		r.Check(got[0] == 1 && got[1] == 1, r3, short(fn), p.Pos(fn.Pos()), false, "*g = old *g2 and *g2 = old *g, whole struct", "Swap does not exchange the two whole values")
 	}
 
